@@ -5,7 +5,8 @@
    [toks_of_items its] is the SPECIFICATION of what encoding/xml's Decoder.Token
    returns on the bytes [emit its] when [wf_items its] holds; it is validated
    against the real tokenizer on the implementation's real output on every run
-   (case kinds XToks / XIndent of Run/RunXml2.v).  Legality of the individual
+   (case kind XToks of Run/RunXml2.v: exact for the compact
+   encoders, modulo the inserted whitespace for the indented ones).  Legality of the individual
    characters (control characters, the tokenizer's \r normalisation, UTF-8
    validity) is not part of [wf_items]: values range over legal XML characters
    without \r (DESIGN.md section 6, C02 Dom). *)
